@@ -258,6 +258,12 @@ structure Env where
   minFee  : Int               -- `FeePool.GetOpt().MinFee()`
   gasPool : Nat               -- `StateDB.GetAvailableGas()`: what is left of the block gas limit
   newAddr : Addr              -- `crypto.CreateAddress(from, state nonce)`
+  meterShut : Bool            -- the gas meter of the state (block meter in DeliverTx, check meter in
+                              -- CheckTx) is at or over its limit when the transaction arrives: every
+                              -- metered read is refused (`State.Get` returns `ErrExceedGasLimit`)
+  feeGasLeft : Nat            -- what the block meter has left when the fee step starts (the metered
+                              -- reads between the gas-pool snapshot and the fee step are not modelled:
+                              -- the level is an input)
   deriving DecidableEq, Repr
 
 /-- `uint64(Fee.Gas)` -/
@@ -279,6 +285,12 @@ inductive VErr where
   | notEnabled | payloadEnc | sigCount | sigBad | chainId | sender | signerKey | txType | feeCurrency | feePrice | currency | address
   | oversized | negative | gasLimit | nonceLow | funds | intrinsic | memoParse | memoNonce
   deriving DecidableEq, Repr
+
+/-- what `keeper.GetNonce` / `keeper.GetBalance` answer in `Validate`: a refused read is swallowed
+    (`GetNonce` returns 0 on an error, `getOrCreateCurrencyBalance` ignores the error of the balance
+    store and takes the zero coin), so on a shut meter the sender looks like an empty account -/
+def seenNonce (env : Env) (w : World) (a : Addr) : Nat := if env.meterShut then 0 else keeperNonce w a
+def seenBalance (env : Env) (w : World) (a : Addr) : Int := if env.meterShut then 0 else nativeBalance w a
 
 /-- `olvmTx.Validate`, in the order of the Go code. All state reads go through the KEEPER
     (persisted records), not through the live object cache. -/
@@ -305,9 +317,9 @@ def validate (env : Env) (w : World) (tx : Tx) : Option VErr :=
   else if tx.size > txMaxSize then some .oversized
   else if tx.value < 0 then some .negative
   else if simulationBlockGasLimit < gasU tx then some .gasLimit
-  else if keeperNonce w tx.sender > tx.nonce then some .nonceLow
+  else if seenNonce env w tx.sender > tx.nonce then some .nonceLow
   -- (the nonce-too-high test is commented out in the Go code)
-  else if nativeBalance w tx.sender < tx.price * (gasU tx : Int) + tx.value then some .funds
+  else if seenBalance env w tx.sender < tx.price * (gasU tx : Int) + tx.value then some .funds
   else if gasU tx < intrinsicGas tx.nz tx.z (isCreate tx) then some .intrinsic
   -- memo must be the nonce
   else match tx.memo with
@@ -419,6 +431,8 @@ inductive Stage where
   | consensus (e : TErr)     -- `Apply` returned an error: ResponseFailed(WrongFee)
   | panic                    -- the Go code panics; `handlePanic` closes the application
   | gasOverflow              -- ContractFeeHandling: gas used above the limit
+  | feeRefused               -- ContractFeeHandling: the contract gas took the block meter to its limit,
+                             -- `AddToPool` cannot read the pool record: the transaction fails as a whole
   | reverted                 -- executed, the interpreter ended in an error (status 0)
   | success                  -- executed (status 1)
   deriving DecidableEq, Repr
@@ -447,12 +461,14 @@ def deliverOlvm (env : Env) (s : St) (tx : Tx) (vm : VmOut) : St × Resp :=
         -- ContractFeeHandling (`SkipFee` = -1 cannot come from a uint64; `WrongFee` = 0)
         if er.usedGas = 0 then (⟨s.w, []⟩, ⟨1, 0, tx.gas, .gasOverflow⟩)
         else if (er.usedGas : Int) > tx.gas then (⟨s.w, []⟩, ⟨1, er.usedGas, tx.gas, .gasOverflow⟩)
+        -- `ConsumeContractGas(gasUsed)` may overflow the meter; `AddToPool` then reads a refused record
+        else if env.feeGasLeft ≤ er.usedGas then (⟨s.w, []⟩, ⟨1, 0, tx.gas, .feeRefused⟩)
         else
           let w' := { s2.w with pool := s2.w.pool + tx.price * (er.usedGas : Int) }
           (⟨w', []⟩, ⟨0, er.usedGas, tx.gas, if er.failed then .reverted else .success⟩)
 
 /-- CheckTx of an OLVM transaction: `Validate` only; `ProcessCheck` does not execute and returns
-    `SkipFee` -/
+    `SkipFee`. `env.meterShut` is then about the check state's own meter. -/
 def checkOlvm (env : Env) (s : St) (tx : Tx) : St × Nat :=
   match validate env s.w tx with
   | some _ => (s, 1)
@@ -474,7 +490,7 @@ def burnt (env : Env) (s : St) (tx : Tx) (vm : VmOut) : Int :=
   | none =>
     match transitionDb env s tx vm with
     | some (s1, .ok er) =>
-      if er.usedGas = 0 ∨ (er.usedGas : Int) > tx.gas then 0 else burntAt s1.cache
+      if er.usedGas = 0 ∨ (er.usedGas : Int) > tx.gas ∨ env.feeGasLeft ≤ er.usedGas then 0 else burntAt s1.cache
     | _ => 0
 
 /-! ## histories -/
